@@ -80,6 +80,7 @@ type TF struct {
 	Distinct func(a, b *Term) bool // optional: semantic disequality known to the client (region ages)
 	Frame    func(arr, idx *Term) *Term // optional: select(arr, idx) is known to equal select(result, idx)
 	DistinctIdx func(a, b *Term) bool   // optional: disequality usable only for skipping a store below a select
+	maxInst int
 	tab   map[string]*Term
 	n     int
 	nvar  int
